@@ -14,7 +14,9 @@ Open Scope N_scope.
    the error is looked at first) *)
 Definition reply_of (p : Parser.result) : reply :=
   match p with
-  | Err _ => RReadError
+  | Err EEof => RCut                     (* nothing more to read: the connection ended while the answer was awaited *)
+  | Err _ => RReadError                  (* an element NextPacket rejects; a cut INSIDE an element is told by the
+                                            harness (reply class 5): the token stream does not show why it ends *)
   | PHandshake => RHandshake
   | PStreamError => RStreamError []      (* the condition does not reach the outcome *)
   | PMessage _ => ROther 1
